@@ -1,6 +1,7 @@
 use std::cell::{Cell, OnceCell};
 use std::rc::Rc;
 
+use super::super::data::PendingThunk;
 use super::super::{ArrayData, FuncData, ObjectData, ThunkData, ThunkEnv, ValueData, ir};
 use super::format::FormatPart;
 use super::{EvalResult, Evaluator, ManifestJsonFormat, TraceItem};
@@ -19,7 +20,7 @@ pub(super) enum State<'a, 'p> {
     DelayedTraceItem,
     DiscardValue,
     DoThunk(GcView<ThunkData<'p>>),
-    GotThunk(GcView<ThunkData<'p>>),
+    GotThunk(GcView<ThunkData<'p>>, PendingThunk<'p>),
     DeepValue,
     SwapLastValues,
     CoerceToString,
